@@ -67,7 +67,7 @@ func ordered(cs []*mdiff.Chunk, strict bool, stage string) *mc.Failure {
 }
 
 func check(t tcase) *mc.Failure {
-	return mc.Guard(func() *mc.Failure {
+	return mc.GuardT("chunks", t, func() *mc.Failure {
 		left, right := mdiffh.Lines(t.L, alphabet), mdiffh.Lines(t.R, alphabet)
 		l0, r0 := append([]string(nil), left...), append([]string(nil), right...)
 		d := mdiff.New(left, right)
